@@ -141,11 +141,24 @@ class Exec:
                 i = self.fixed_for(v)
                 self.decisions[v.key] = i
             else:
-                i = self.decide(v.n, v.key) if v.n > 1 else 0
+                allowed = self.restricted_for(v)
+                if allowed is not None:
+                    # a slice split along this dimension: this worker owns one residue class of its alternatives
+                    if not allowed:
+                        raise Infeasible(f'no alternative of {v.key} in this part of the split')
+                    i = allowed[self.decide(len(allowed), v.key) if len(allowed) > 1 else 0]
+                else:
+                    i = self.decide(v.n, v.key) if v.n > 1 else 0
                 self.decisions[v.key] = i
             v = v.gen(self, i)
             cont[idx] = v
         return v
+
+    def restricted_for(self, v):
+        for rx, k, n in getattr(self.prog, 'restrict', ()) or ():
+            if rx.search(v.key):
+                return [i for i in range(v.n) if i % n == k]
+        return None
 
     def fixed_for(self, v):
         """drivers concretise dimensions their property does not depend on: [(compiled regex, label or index)]"""
@@ -306,6 +319,11 @@ class Exec:
             if shape == 'named':
                 names = [n for n, _ in fields]
             return Obj(ty, variant, [v for _, v in fields], names)
+        dest = getattr(self, '_dest_ty', None)
+        if len(segs) == 1 and dest and L.local_structs.get(name) is None:
+            en = basename(resolve.strip_generics(dest))
+            if L.is_enum(en) and name in L.enum_variants(en):
+                return Obj(en, name, [v for _, v in fields], [n for n, _ in fields] if shape == 'named' else None)
         ty = name
         if shape == 'named':
             decl = L.struct_fields(ty)
@@ -424,6 +442,9 @@ class Exec:
                 for st in stmts:
                     self.steps += 1
                     if st[0] == 'assign':
+                        # the pretty printer names an enum aggregate by its variant only (`_5 = Public(move _6)`): the enum is the
+                        # declared type of the destination local
+                        self._dest_ty = body.local_types.get(st[1].local) if (st[2].kind == 'adt' and not st[1].proj) else None
                         v = self.rvalue(fr, st[2])
                         p = st[1]
                         if not p.proj:
